@@ -17,15 +17,18 @@ package main
 // (what cmd/zygo -sandbox builds). Texts naming anything that reaches the outside world
 // (crashDeny) are never executed: answer `skip`.
 //
-// Answer of s/b:  P:<statuses>/<nexprs> E:<cls> L:<cls> X:<cls> M:<cls> R:<cls>
+// Answer of s/b:  P:<statuses>/<nexprs> E:<cls> D:<depths> F:<cls> X:<cls> M:<cls> R:<cls>
 //	P  Parser chunk API on a fresh parser: ResetAddNewInput(text) ParseTokens EndInput
 //	   ParseTokens — one status letter per call (d/m/e) and the number of expressions; then
 //	   the same text delivered in two pieces (NewInput) must not panic either
-//	E  EvalString on a fresh interpreter, then SexpString of the value
-//	L  LoadString + Run on the interpreter E used (second text against a used interpreter)
+//	E  LoadString + Run (= EvalString) on a fresh interpreter, then SexpString of the value
+//	D  the four stack depths (data,scope,addr,loop) after E; at rest they are 0,1,0,0
+//	F  the follow-up battery (crashFollowUp: def, defn+call, let, for, defmac+call, str of a
+//	   hash, array literal) through EvalString on the interpreter E used, without Clear()
 //	X  ParseTokens of the interpreter's own parser, then EvalExpressions
 //	M  (macexpand <text>) when the text is one expression, else `-`
-//	R  the REPL line path (overlay VerifReplLines: the real line reader, then the loop body)
+//	R  the REPL line path (overlay VerifReplLines: the real line reader, then the loop body),
+//	   the text followed by the lines of the battery
 // classes: ok | err (Run / evaluation returned an error) | cerr (LoadString returned an
 // error) | panic:<msg> (a Go panic left the library) | gonil (neither a value nor an error:
 // a nil Sexp with a nil error) | timeout (call budget) | `-` (not run).
@@ -258,15 +261,45 @@ func parseTwoPieces(env *zygo.Zlisp, text string, cut int) {
 }
 
 type crashRec struct {
-	P, E, L, X, M, R string
+	P, E, D, F, X, M, R string
+}
+
+// crashFollowUp: evaluated one after another, through EvalString, on an interpreter that has
+// just evaluated a generated text. Errors are fine; a panic or a nil value is the finding.
+var crashFollowUp = []string{
+	"(def zzq 7)",
+	"(defn zzf [x] (+ x x)) (zzf zzq)",
+	"(let [zzl 1] zzl)",
+	"(for [(def zzi 0) (< zzi 2) (def zzi (+ zzi 1))] zzi)",
+	"(defmac zzm [a] ^(+ 1 ~a)) (zzm 2)",
+	"(str (hash zzk: 1))",
+	"[zzq (zzf 1)]",
+}
+
+func crashBattery(env *zygo.Zlisp) string {
+	errs := 0
+	for _, t := range crashFollowUp {
+		v, err := env.EvalString(t)
+		c := valueClass(v, err)
+		if c == "gonil" {
+			return c
+		}
+		if c == "err" {
+			errs++
+		}
+	}
+	if errs > 0 {
+		return "err"
+	}
+	return "ok"
 }
 
 func (r crashRec) String() string {
-	return fmt.Sprintf("P:%s E:%s L:%s X:%s M:%s R:%s", r.P, r.E, r.L, r.X, r.M, r.R)
+	return fmt.Sprintf("P:%s E:%s D:%s F:%s X:%s M:%s R:%s", r.P, r.E, r.D, r.F, r.X, r.M, r.R)
 }
 
 func (r crashRec) bad() bool {
-	return isBad(r.P) || isBad(r.E) || isBad(r.L) || isBad(r.X) || isBad(r.M) || isBad(r.R)
+	return isBad(r.P) || isBad(r.E) || isBad(r.F) || isBad(r.X) || isBad(r.M) || isBad(r.R)
 }
 
 // crashAll runs every entry point on `text`. `pool` supplies interpreters (fresh ones in the
@@ -278,7 +311,9 @@ func crashAll(cfg byte, text string, full bool, get func() *crashEnv, discard fu
 	rec.P = ce.guard(func() string {
 		r, n := parseRecord(ce.env, text)
 		nexpr = n
-		parseTwoPieces(ce.env, text, len(text)/2)
+		if full {
+			parseTwoPieces(ce.env, text, len(text)/2)
+		}
 		return r
 	})
 	if isBad(rec.P) || rec.P == "timeout" {
@@ -286,30 +321,37 @@ func crashAll(cfg byte, text string, full bool, get func() *crashEnv, discard fu
 	}
 	ce = get()
 	rec.E = ce.guard(func() string {
-		v, err := ce.env.EvalString(text)
-		if err != nil && strings.HasPrefix(err.Error(), "Error on line") {
+		// EvalString is LoadString + Run; done in two steps here so that a refusal of the text
+		// (parse or code generation) is told apart from a run-time error. The battery below
+		// goes through EvalString itself.
+		if err := ce.env.LoadString(text); err != nil {
 			return "cerr"
 		}
+		v, err := ce.env.Run()
 		return valueClass(v, err)
 	})
+	rec.D, rec.F = "-", "-"
 	if isBad(rec.E) || rec.E == "timeout" {
 		discard()
+	} else if full {
+		// the interpreter stays in use, as in a long-lived host: stack depths after the text,
+		// then the follow-up battery on the SAME interpreter (no Clear): a text that
+		// corrupted the interpreter without a visible failure shows here
+		d, sc, a, l := ce.env.VerifDepths()
+		rec.D = fmt.Sprintf("%d,%d,%d,%d", d, sc, a, l)
+		rec.F = ce.guard(func() string { return crashBattery(ce.env) })
+		if isBad(rec.F) || rec.F == "timeout" {
+			discard()
+		}
 	} else {
 		ce.guard(func() string { ce.env.Clear(); return "" })
 	}
-	rec.L, rec.X, rec.M = "-", "-", "-"
-	if full {
-		ce = get()
-		rec.L = ce.guard(func() string {
-			if err := ce.env.LoadString(text); err != nil {
-				return "cerr"
-			}
-			v, err := ce.env.Run()
-			return valueClass(v, err)
-		})
-		if isBad(rec.L) || rec.L == "timeout" {
-			discard()
-		}
+	rec.X, rec.M = "-", "-"
+	sum := 0
+	for i := 0; i < len(text); i++ {
+		sum += int(text[i])
+	}
+	if full && sum%4 == 0 { // EvalExpressions differs from E only in who calls the parser: a quarter of the texts
 		ce = get()
 		rec.X = ce.guard(func() string {
 			p := ce.env.VerifParser()
@@ -325,6 +367,8 @@ func crashAll(cfg byte, text string, full bool, get func() *crashEnv, discard fu
 		if isBad(rec.X) || rec.X == "timeout" {
 			discard()
 		}
+	}
+	if full && sum%2 == 0 {
 		if nexpr == 1 && strings.HasPrefix(rec.P, "dd/") || strings.HasPrefix(rec.P, "md/") && nexpr == 1 {
 			ce = get()
 			rec.M = ce.guard(func() string {
@@ -338,7 +382,11 @@ func crashAll(cfg byte, text string, full bool, get func() *crashEnv, discard fu
 	}
 	ce = get()
 	rec.R = ce.guard(func() string {
-		in, er, _ := ce.env.VerifReplLines(text + "\n")
+		lines := text + "\n"
+		if full {
+			lines += strings.Join(crashFollowUp, "\n") + "\n"
+		}
+		in, er, _ := ce.env.VerifReplLines(lines)
 		_ = in
 		if er > 0 {
 			return "err"
@@ -372,21 +420,45 @@ var crashWatchdog = 2 * time.Second
 
 // ---------------------------------------------------------------- enumeration
 
-var crashAlphabets = map[string]string{
-	// the token alphabet of the property + backslash (escape sequences) + blank + newline
-	"A": "()[]{}%^~@:;,.-+1a\"'`/#\\ \n",
-	// reduced alphabet for the longest strings of the thorough tier
-	"B": "(){}[]:\"a1 \\.-",
+// an enumeration alphabet: tokens, how they are joined, and what surrounds the sequence
+type crashAlphabet struct {
+	prefix, sep, suffix string
+	toks                []string
 }
 
-func enumString(alpha string, length int, idx int64) string {
-	b := make([]byte, length)
-	n := int64(len(alpha))
+func charAlphabet(s string) crashAlphabet {
+	a := crashAlphabet{}
+	for _, r := range s {
+		a.toks = append(a.toks, string(r))
+	}
+	return a
+}
+
+// the token alphabet of the property + backslash (escape sequences) + blank + newline
+const crashAlphaA = "()[]{}%^~@:;,.-+1a\"'`/#\\ \n"
+
+var crashSeqToks = []string{"a", "b", "1", "=", ":=", "\\", "(", ")", "[", "]", "'", ":", "&", "*"}
+
+var crashAlphabets = map[string]crashAlphabet{
+	"A": charAlphabet(crashAlphaA),
+	// reduced alphabet for the longest strings of the thorough tier
+	"B": charAlphabet("(){}[]:\"a1 \\.-"),
+	// A extended by the operator characters
+	"C": charAlphabet(crashAlphaA + "=&$?!*<>|"),
+	// token sequences (separated by blanks) inside a list, an array, an infix block / hash
+	"T": {prefix: "(", sep: " ", suffix: ")", toks: crashSeqToks},
+	"U": {prefix: "[", sep: " ", suffix: "]", toks: crashSeqToks},
+	"V": {prefix: "{", sep: " ", suffix: "}", toks: crashSeqToks},
+}
+
+func enumString(alpha crashAlphabet, length int, idx int64) string {
+	parts := make([]string, length)
+	n := int64(len(alpha.toks))
 	for i := length - 1; i >= 0; i-- {
-		b[i] = alpha[idx%n]
+		parts[i] = alpha.toks[idx%n]
 		idx /= n
 	}
-	return string(b)
+	return alpha.prefix + strings.Join(parts, alpha.sep) + alpha.suffix
 }
 
 const crashHashMod = 1000000007
@@ -482,7 +554,7 @@ func classOnly(c string) string {
 }
 
 func firstBad(r crashRec) string {
-	for _, c := range []string{r.P, r.E, r.L, r.X, r.M, r.R} {
+	for _, c := range []string{r.P, r.E, r.F, r.X, r.M, r.R} {
 		if isBad(c) {
 			return c
 		}
